@@ -54,6 +54,18 @@ def specs(tier, seed):
                                 "pkts": [[1000, "C0", "S", "twinA:%d" % k, size], [6000, "C0", "S", "twinB:%d" % k, size],
                                          [9000, "C0", "S", "rand", 100]],
                                 "dur_ms": 20000, "label": "abandon%d/%s" % (k, qt)})
+    # tun traffic during retransmission: the ack of a non-first fragment is lost for two timeouts (the client then
+    # polls its tun again), a twin packet arrives in that window, then the path recovers before the packet is abandoned
+    for qt in (["NULL", "TXT", "MX"] if tier == "quick" else common.QTYPES):
+        for lazy in (0, 1):
+            for start in ((1002, 1003) if tier == "quick" else (1002, 1003, 1004, 1005)):
+                for end in ((3400,) if tier == "quick" else (3300, 3400, 3700)):
+                    k += 1
+                    out.append({"seed": seed * 100000 + 96000 + k, "sess": {"qtype": qt, "lazy": lazy},
+                                "relay": {}, "blackout_ms": [["a", start, end]],
+                                "pkts": [[1000, "C0", "S", "twinA:%d" % k, 500], [3100, "C0", "S", "twinB:%d" % k, 500],
+                                         [9000, "C0", "S", "rand", 100]],
+                                "dur_ms": 20000, "label": "overwrite%d/%s" % (k, qt)})
     return out
 
 
